@@ -593,4 +593,14 @@ theorem Di.isolate_orphan' (s : Store K E) (h : Mirror s) (u : K) :
   by_cases hw : w = u
   · simp [hw, vals]
   · simp [hw, vals, dropKey, List.filter_filter]
+
+/-- after an undirected `isolate` the node has degree 0 and no node lists it in either orientation -/
+theorem Un.isolate_orphan' (s : Store K E) (h : Mirror s) (u : K) :
+    unAdj (Un.isolate s u).1 u = [] ∧ ∀ w, vals (unAdj (Un.isolate s u).1 w) u = [] := by
+  have h1 := Un.isolate_spec' s h u
+  refine ⟨by simp [unAdj, (h1.2 u).1, (h1.2 u).2], fun w => ?_⟩
+  simp only [unAdj, vals_append, (h1.2 w).1, (h1.2 w).2]
+  by_cases hw : w = u
+  · simp [hw, vals]
+  · simp [hw, vals, dropKey, List.filter_filter]
 end G
